@@ -26,8 +26,9 @@ Detection power (mutants injected one at a time into a scratch copy of /repo/src
        caught by "exact Darcy flux of a linear field"
   M4 mpfa.py  pressure_trace_cell = dist_cell_igrad*rhs_cells + cell_centers -> without ``+ cell_centers``
        caught by "Mpfa.discretize: boundary pressure reconstruction returns the exact pressure"
-  M5 _fvutils.py ExcludeBoundaries: exclude_neumann_robin uses the Dirichlet filter (swapped)
-       -> raises / caught as a violation "discretize raised" on mixed boundary layouts
+  M5 _fvutils.py ExcludeBoundaries.__init__: ``exclude_neu_rob = _exclude_matrix(is_neu | is_rob)`` -> ``(is_dir | is_rob)`` (swapped filter)
+       caught by "Mpfa.discretize: terminates without exception on an admissible input" (dimension mismatch) on every layout;
+       the replay file reproduces it (./check C11 --replay ... -> REPRODUCED)
 """
 from __future__ import annotations
 
